@@ -70,6 +70,9 @@ def info(prop):
                         "main/auto_map: exhaustive over argv combinations (0..2 explicit species in every order, --auto with "
                         "every listed --exclude choice, --scale absent/given, --outfile absent/absolute/relative, three ways "
                         "of naming the input) on a generated 3-species system."),
+        "not_demanded": ("Informational only (mismatch -> undecided, never a violation): classify_files' own result (helper of the discovery), "
+                         "the return format of sort_molecules and incomplete entries in it, which Manager methods main/auto_map call and in "
+                         "which order the species are passed, positional vs keyword arguments, the default scale, printed text."),
         "rule": ("one evaluation = one call of the real function on one enumerated input (file-name tuple; directory x explicit "
                  "subset x iteration-order pair; argv vector); all enumerated inputs are distinct by construction; "
                  "non-trivial = at least one file classified / one species discoverable / one species mapped"),
@@ -301,9 +304,11 @@ def task_classify(seed):
                "same_result_when_repeated"):
         oid = f"{PROP}/classify_files/ensures.{cl}/names20.len<=3"
         if cl in fails:
+            # classify_files is a helper of the discovery: the STATEMENT fixes only what discovery assigns (checked on
+            # sort_molecules/main with the real classify_files), not this function's own result -> informational, never a violation
             c = fails[cl]
-            out.append(ob(oid, "refuted", cex=c, reason=f"files={c['files']} observed={c['observed']} expected={c['expected']}",
-                          evaluations=n, nontrivial=nontriv, secs=secs, **KW))
+            out.append(ob(oid, "undecided", reason=f"helper contract (not in the property statement) does not hold: files={c['files']} "
+                          f"observed={c['observed']} expected={c['expected']}", evaluations=n, nontrivial=nontriv, secs=secs, **KW))
         else:
             out.append(ob(oid, "discharged", sample=sample, evaluations=n, nontrivial=nontriv, secs=secs, **KW))
     # must-fail: the contract evaluator rejects a swapped / incomplete observation
@@ -372,15 +377,21 @@ def sort_case_spec(case, folder):
     return ref, cand, known, expected, explicit_names, incomplete
 
 
+ROLES = ("top_CG", "coor_AA", "top_AA")
+
+
 def canon(result):
+    """The ASSIGNMENT a result makes: species with a complete (start topology, end coordinates, end topology) entry.
+    Incomplete entries assign nothing (main() skips them) and are not part of what the statement fixes."""
     try:
-        return sorted((str(k), sorted((str(a), _ap(str(b))) for a, b in dict(v).items())) for k, v in dict(result).items())
+        return sorted((str(k), sorted((r, _ap(str(dict(v)[r]))) for r in ROLES)) for k, v in dict(result).items()
+                      if all(r in dict(v) for r in ROLES))
     except Exception:
         return repr(result)
 
 
 def sort_post(result, exc, expected, explicit_names, incomplete):
-    """-> dict clause -> short description of the violation"""
+    """-> dict clause -> short description of the violation ("info." clauses are informational: undecided, never refuted)"""
     bad = {}
     if exc is not None:
         bad["no_exception"] = f"raises {type(exc).__name__}: {exc}"
@@ -388,24 +399,19 @@ def sort_post(result, exc, expected, explicit_names, incomplete):
     try:
         res = {k: dict(v) for k, v in dict(result).items()}
     except Exception:
-        bad["exact_triples"] = f"result is not a mapping of mappings: {result!r}"[:300]
+        bad["info.return_format"] = f"result is not a mapping of mappings: {result!r}"[:300]
         return bad
     for name, trip in expected.items():
         got = res.get(name)
-        if got is None or {k: _ap(v) for k, v in got.items()} != {k: _ap(v) for k, v in trip.items()}:
+        if got is None or {r: _ap(got[r]) for r in ROLES if r in got} != {r: _ap(trip[r]) for r in ROLES}:
             bad.setdefault("exact_triples", f"{name}: got {got}, expected {trip}")
+    complete = {n: g for n, g in res.items() if all(r in g for r in ROLES)}
     for name in explicit_names:
-        if name in res:
-            bad.setdefault("explicit_species_not_readded", f"{name} given explicitly but returned: {res[name]}")
-    for name, got in res.items():
-        if name in expected or name in explicit_names:
-            continue
-        if name in incomplete:
-            ok = len(got) < 3 and all(_ap(got[k]) == _ap(incomplete[name].get(k, "\0")) for k in got)
-            if not ok:
-                bad.setdefault("only_system_species", f"{name} has no end files but got {got}")
-        else:
-            bad.setdefault("only_system_species", f"unexpected species {name}: {got}")
+        if name in complete:
+            bad.setdefault("explicit_species_not_readded", f"{name} given explicitly but assigned again: {res[name]}")
+    for name, got in complete.items():
+        if name not in expected and name not in explicit_names:
+            bad.setdefault("only_system_species", f"{name} is not a discoverable species (no complete set of files) but is assigned {got}")
     return bad
 
 
@@ -432,6 +438,12 @@ def run_sort(case, folder, tops_order=None, coords_order=None):
     here = folder if folder and case["layout"] != "shipped" else (os.getcwd() if not folder else "")
     res = canon(result) if exc is None else f"raises {type(exc).__name__}: {exc}"
     return _strip(bad, here), _strip(res, here), reached
+
+
+def _sort_info(fails, tag, n, secs):
+    """Informational mismatches (return format): undecided, never a violation."""
+    return [ob(f"{PROP}/sort_molecules/informational.{cl[5:]}/{tag}", "undecided", reason=fails[cl][1], evaluations=n, secs=secs, **KW)
+            for cl in fails if cl.startswith("info.")]
 
 
 SORT_CLAUSES = ("no_exception", "exact_triples", "explicit_species_not_readded", "only_system_species",
@@ -522,6 +534,7 @@ def task_sort_stubbed(layout, explicit, lo, hi, coord_mode, seed, tag):
                               f"coordinate order {fails[cl][0]['coords_order']}]", evaluations=n, nontrivial=nontriv, secs=secs, **KW))
             else:
                 out.append(ob(oid, "discharged", sample=sample, evaluations=n, nontrivial=nontriv, secs=secs, **KW))
+        out += _sort_info(fails, tag, n, secs)
         out.append(ob(f"{PROP}/sort_molecules/guard.adversarial-order-reached/{tag}", "discharged" if missed == 0 and n > 0 else "refuted",
                       kind="guard", engine="smallscope", backend="runtime-contract", expect="discharged",
                       reason=f"{missed} of {n} runs did not call/iterate the classify_files stub"))
@@ -588,6 +601,7 @@ def task_sort_native(layouts, n_shuffles, seed, tag):
                 out.append(ob(oid, "refuted", cex=fails[cl][0], reason=fails[cl][1], evaluations=n, nontrivial=n, secs=secs, **KW))
             else:
                 out.append(ob(oid, "discharged", sample=sample, evaluations=n, nontrivial=n, secs=secs, **KW))
+        out += _sort_info(fails, tag, n, secs)
         return out
     finally:
         shutil.rmtree(root, ignore_errors=True)
@@ -662,6 +676,7 @@ def task_sort_hashseed(layout, seeds, tag):
             else:
                 out.append(ob(oid, "discharged", sample=sample, evaluations=n, nontrivial=n, secs=secs,
                               **dict(KW, backend="subprocess-hashseed")))
+        out += _sort_info(fails, tag, n, secs)
         return out
     finally:
         shutil.rmtree(root, ignore_errors=True)
@@ -684,9 +699,9 @@ def task_sort_guards(seed):
     caught = sort_post(good, None, expected, explicit_names, incomplete) == {}
     swapped = {n: dict(t, top_AA=t["top_CG"], top_CG=t["top_AA"]) for n, t in expected.items()}
     caught = caught and "exact_triples" in sort_post(swapped, None, expected, explicit_names, incomplete)
-    readd = dict(good, MA={"top_CG": fname("A", "top_CG")})
+    readd = dict(good, MA={r: fname("A", r) for r in ROLES})
     caught = caught and "explicit_species_not_readded" in sort_post(readd, None, expected, explicit_names, incomplete)
-    foreign = dict(good, MX={"top_CG": "X_other.itp"})
+    foreign = dict(good, MX={"top_CG": "X_other.itp", "top_AA": "X_other.itp", "coor_AA": "stray.gro"})
     caught = caught and "only_system_species" in sort_post(foreign, None, expected, explicit_names, incomplete)
     byfile = {t["top_CG"]: dict(t) for t in expected.values()}
     caught = caught and "exact_triples" in sort_post(byfile, None, expected, explicit_names, incomplete)
@@ -815,6 +830,7 @@ def main_env(case, root):
         "ends": {SPECIES[s][0]: {"name": SPECIES[s][0], "natoms": SPECIES[s][3], "positions": [list(p) for p in end_positions(s)]}
                  for s in mapped},
         "scale": 0.5 if case["scale"] is None else float(case["scale"]),
+        "scale_given": case["scale"] is not None,
         "out_abs": out_abs,
         "out_natoms": sum(SPECIES[s][3] for s in LAYOUTS[MAIN_LAYOUT]["seq"] if s in mapped),
     }
@@ -857,58 +873,87 @@ def _ends_ok(snap, exp_ends):
 
 
 def main_post(log, exc, exp, produced):
-    """-> dict clause -> description of the violation."""
-    bad = {}
+    """-> dict clause -> description of the violation.
+
+    Refutable clauses are what the STATEMENT fixes: a result is produced; exactly one file, at the requested path or
+    mapped_<input name> beside the input; the mapped species are the explicit ones plus the discovered, non-excluded ones, none
+    twice; every mapped species' end molecule is the one of its own end files, attached when the alignment starts; a GIVEN
+    scale reaches the exchange maps.  Clauses named "info.*" describe HOW the code drives Manager (which methods, order of the
+    species, positional/keyword, the default scale): a mismatch there is reported as undecided, never as a violation -- whether
+    such a variant still gives the library workflow's output is decided by the end-to-end obligation."""
     if exc is not None:
         # the run stopped early: the remaining clauses cannot be evaluated on a partial record
         done = [e["call"] for e in log]
         return {"no_exception": f"raises {type(exc).__name__}: {exc} (after calls {done})"[:400]}
+    bad = {}
+    shape = []
     calls = [e["call"] for e in log]
     ff = [e for e in log if e["call"] == "from_files"]
-    if calls[:1] != ["from_files"] or len(ff) != 1:
-        bad["from_files_once_first_with_input_coordinates"] = f"call sequence {calls}"
-    elif os.path.normpath(ff[0]["coords_abs"]) != exp["coords_abs"]:
-        bad["from_files_once_first_with_input_coordinates"] = f"from_files got {ff[0]['coords']}, expected the input {exp['coords_abs']}"
-    if ff:
-        tops = [os.path.normpath(t) for t in ff[0]["tops_abs"]]
-        k = len(exp["explicit_tops_abs"])
-        if tops[:k] != exp["explicit_tops_abs"]:
-            bad["explicit_start_topologies_first_in_given_order"] = f"start topologies {ff[0]['tops']}, expected to begin with {exp['explicit_tops_abs']}"
-        rest = tops[k:] if tops[:k] == exp["explicit_tops_abs"] else [t for t in tops if t not in exp["explicit_tops_abs"]]
-        if sorted(rest) != exp["auto_tops_abs"] or len(set(tops)) != len(tops):
-            bad["discovered_species_exactly_nonexplicit_nonexcluded"] = (f"start topologies passed {ff[0]['tops']}; discovered part expected "
-                                                                         f"{exp['auto_tops_abs']} (no species twice, none excluded)")
     al = [e for e in log if e["call"] == "align_molecules"]
     cm = [e for e in log if e["call"] == "calculate_exchange_maps"]
     ex = [e for e in log if e["call"] == "extrapolate_system"]
+    # -- output file (file system, independent of the recorder)
+    files = [os.path.normpath(p) for p in produced["files"]]
+    if files != [exp["out_abs"]]:
+        bad["output_requested_path_or_mapped_beside_input"] = f"files written {produced['files']}, expected exactly {exp['out_abs']}"
+    # -- mapped species
+    want_tops = sorted(exp["explicit_tops_abs"] + exp["auto_tops_abs"])
+    why = None
+    if files == [exp["out_abs"]] and produced["natoms"] is not None and produced["natoms"] != exp["out_natoms"]:
+        why = f"output has {produced['natoms']} atoms, expected {exp['out_natoms']} (instances of the mapped species only)"
+    if why is None and len(ff) == 1:
+        tops = [os.path.normpath(t) for t in ff[0]["tops_abs"]]
+        if sorted(tops) != want_tops:
+            why = f"start topologies loaded {ff[0]['tops']}, expected exactly those of {exp['mapped_names']} (none twice, none excluded)"
+    last = (ex or cm or al)
+    if why is None and last and last[-1]["ends"] is not None:
+        have = sorted(n for n, e in last[-1]["ends"].items() if e is not None)
+        if have != exp["mapped_names"]:
+            why = f"species with an end molecule {have}, expected {exp['mapped_names']}"
+    if why:
+        bad["mapped_species_explicit_plus_discovered_nonexcluded_none_twice"] = why
+    # -- end molecules
+    first = (al or cm or ex)
+    if first:
+        ok, why = _ends_ok(first[0]["ends"], exp["ends"])
+        if not ok:
+            bad["end_molecules_attached_by_name_before_alignment"] = why
+    else:
+        shape.append("no alignment/exchange-map/extrapolation call was seen on the Manager")
+    # -- scale
+    if cm:
+        sc = cm[0]["scale"]
+        if sc is None or abs(sc - exp["scale"]) > 1e-12:
+            text = f"calculate_exchange_maps{tuple(cm[0]['args'])}{cm[0]['kwargs']}: scale {sc}, expected {exp['scale']}"
+            if exp["scale_given"]:
+                bad["given_scale_forwarded"] = text
+            else:
+                bad["info.default_scale_half"] = text + " (no --scale given; the statement does not fix the default)"
+        if cm[0]["extra_args"]:
+            shape.append(f"calculate_exchange_maps got extra arguments {cm[0]['args']} {cm[0]['kwargs']}")
+    # -- informational: the way Manager is driven
     if calls != ["from_files", "align_molecules", "calculate_exchange_maps", "extrapolate_system"]:
-        bad["sequence_from_files_align_maps_extrapolate"] = f"call sequence {calls}"
-    elif not al[0]["default_call"]:
-        bad["sequence_from_files_align_maps_extrapolate"] = f"align_molecules called with {al[0]['args']} {al[0]['kwargs']}, expected defaults"
-    snap = (al or cm or ex or [{"ends": None}])[0]["ends"]
-    ok, why = _ends_ok(snap, exp["ends"])
-    if not ok:
-        bad["end_molecules_attached_by_name_before_alignment"] = why
-    if not cm:
-        bad["scale_forwarded_default_half"] = "calculate_exchange_maps not called"
-    elif cm[0]["scale"] is None or abs(cm[0]["scale"] - exp["scale"]) > 1e-12 or cm[0]["extra_args"]:
-        bad["scale_forwarded_default_half"] = f"calculate_exchange_maps{tuple(cm[0]['args'])}{cm[0]['kwargs']}: scale {cm[0]['scale']}, expected {exp['scale']}"
-    if not ex:
-        bad["output_requested_path_or_mapped_beside_input"] = "extrapolate_system not called"
-    elif ex[0]["path_abs"] is None or os.path.normpath(ex[0]["path_abs"]) != exp["out_abs"]:
-        bad["output_requested_path_or_mapped_beside_input"] = f"extrapolate_system({ex[0]['path']!r}) -> {ex[0]['path_abs']}, expected {exp['out_abs']}"
-    elif exc is None:
-        if [os.path.normpath(p) for p in produced["files"]] != [exp["out_abs"]]:
-            bad["output_requested_path_or_mapped_beside_input"] = f"files written {produced['files']}, expected exactly {exp['out_abs']}"
-        elif produced["natoms"] != exp["out_natoms"]:
-            bad["output_requested_path_or_mapped_beside_input"] = f"output has {produced['natoms']} atoms, expected {exp['out_natoms']} (mapped species only)"
+        shape.append(f"call sequence {calls}")
+    if al and not al[0]["default_call"]:
+        shape.append(f"align_molecules called with {al[0]['args']} {al[0]['kwargs']}")
+    if ff and os.path.normpath(ff[0]["coords_abs"]) != exp["coords_abs"]:
+        shape.append(f"from_files got {ff[0]['coords']}, the input is {exp['coords_abs']}")
+    if ff:
+        tops = [os.path.normpath(t) for t in ff[0]["tops_abs"]]
+        if tops[:len(exp["explicit_tops_abs"])] != exp["explicit_tops_abs"]:
+            shape.append(f"start topologies {ff[0]['tops']} do not begin with the explicit ones in the given order")
+    if ex and (ex[0]["path_abs"] is None or os.path.normpath(ex[0]["path_abs"]) != exp["out_abs"]):
+        shape.append(f"extrapolate_system({ex[0]['path']!r}), expected {exp['out_abs']}")
+    if shape:
+        bad["info.call_shape"] = "; ".join(shape)
     return bad
 
 
-MAIN_CLAUSES = ("no_exception", "from_files_once_first_with_input_coordinates", "explicit_start_topologies_first_in_given_order",
-                "discovered_species_exactly_nonexplicit_nonexcluded", "sequence_from_files_align_maps_extrapolate",
-                "end_molecules_attached_by_name_before_alignment", "scale_forwarded_default_half",
-                "output_requested_path_or_mapped_beside_input")
+MAIN_CLAUSES = ("no_exception", "output_requested_path_or_mapped_beside_input",
+                "mapped_species_explicit_plus_discovered_nonexcluded_none_twice",
+                "end_molecules_attached_by_name_before_alignment", "given_scale_forwarded",
+                "info.call_shape", "info.default_scale_half")
+MAIN_FN = {"no_exception": "main", "mapped_species_explicit_plus_discovered_nonexcluded_none_twice": "main"}
 
 
 def run_main(case, root, spy=True):
@@ -993,10 +1038,12 @@ def task_main_protocol(chunk, nchunks, seed):
         out = []
         tag = f"argv[{chunk}::{nchunks}]"
         for cl in MAIN_CLAUSES:
-            fn = "main" if cl in ("no_exception", "explicit_start_topologies_first_in_given_order",
-                                  "discovered_species_exactly_nonexplicit_nonexcluded") else "auto_map"
-            oid = f"{PROP}/{fn}/ensures.{cl}/{tag}"
-            if cl in fails:
+            info_cl = cl.startswith("info.")
+            oid = f"{PROP}/{MAIN_FN.get(cl, 'auto_map')}/" + (f"informational.{cl[5:]}" if info_cl else f"ensures.{cl}") + f"/{tag}"
+            if cl in fails and info_cl:
+                out.append(ob(oid, "undecided", reason=f"{fails[cl][1]} [argv {' '.join(fails[cl][0]['argv'][1:])}] -- not fixed by the "
+                              f"statement; the end-to-end obligation decides", evaluations=n, nontrivial=n, secs=secs, **KW))
+            elif cl in fails:
                 out.append(ob(oid, "refuted", cex=fails[cl][0], reason=f"{fails[cl][1]} [argv {' '.join(fails[cl][0]['argv'][1:])}]",
                               evaluations=n, nontrivial=n, secs=secs, **KW))
             else:
@@ -1011,13 +1058,14 @@ def task_main_protocol(chunk, nchunks, seed):
 
 def ideal_log(exp):
     """The call record the contract describes, built from the expectation only."""
-    ends = {n: dict(e) for n, e in exp["ends"].items()}
+    def ends_copy():
+        return {n: dict(e) for n, e in exp["ends"].items()}
     tops = exp["explicit_tops_abs"] + exp["auto_tops_abs"]
     return [{"call": "from_files", "coords": exp["coords_abs"], "coords_abs": exp["coords_abs"], "tops": list(tops), "tops_abs": list(tops)},
-            {"call": "align_molecules", "args": [], "kwargs": {}, "default_call": True, "ends": ends},
+            {"call": "align_molecules", "args": [], "kwargs": {}, "default_call": True, "ends": ends_copy()},
             {"call": "calculate_exchange_maps", "args": [], "kwargs": {"scale_factor": repr(exp["scale"])}, "scale": exp["scale"],
-             "extra_args": False, "ends": ends},
-            {"call": "extrapolate_system", "path": exp["out_abs"], "path_abs": exp["out_abs"], "ends": ends}]
+             "extra_args": False, "ends": ends_copy()},
+            {"call": "extrapolate_system", "path": exp["out_abs"], "path_abs": exp["out_abs"], "ends": ends_copy()}]
 
 
 def task_main_guards(seed):
@@ -1043,10 +1091,13 @@ def task_main_guards(seed):
             lg[2]["scale"] = 0.5
 
         def c_path(lg, pr):
-            lg[3]["path_abs"] = os.path.join(os.path.dirname(exp["out_abs"]), "sys.gro")
+            pr["files"] = [os.path.join(os.path.dirname(exp["out_abs"]), "sys.gro_mapped")]
 
         def c_cwd(lg, pr):
-            lg[3]["path_abs"] = os.path.join(root, "elsewhere", "mapped_sys.gro")
+            pr["files"] = [os.path.join(root, "elsewhere", "mapped_sys.gro")]
+
+        def c_two(lg, pr):
+            pr["files"] = [exp["out_abs"], os.path.join(root, "elsewhere", "mapped_sys.gro")]
 
         def c_excl(lg, pr):
             lg[0]["tops_abs"].append(os.path.join(root, "work", fname("C", "top_CG")))
@@ -1054,14 +1105,14 @@ def task_main_guards(seed):
         def c_readd(lg, pr):
             lg[0]["tops_abs"].append(os.path.join(root, "work", fname("B", "top_CG")))
 
+        def c_drop(lg, pr):
+            lg[0]["tops_abs"].pop()
+
         def c_order(lg, pr):
             lg[0]["tops_abs"].reverse()
 
         def c_seq(lg, pr):
             lg[1], lg[2] = lg[2], lg[1]
-
-        def c_noalign(lg, pr):
-            del lg[1]
 
         def c_end(lg, pr):
             lg[1]["ends"]["MA"] = None
@@ -1069,19 +1120,17 @@ def task_main_guards(seed):
         def c_end2(lg, pr):
             lg[1]["ends"]["MA"], lg[1]["ends"]["MB"] = lg[1]["ends"]["MB"], lg[1]["ends"]["MA"]
 
+        def c_endx(lg, pr):
+            lg[3]["ends"]["MC"] = dict(lg[3]["ends"]["MA"])
+
         def c_natoms(lg, pr):
             pr["natoms"] += SPECIES["C"][3]
 
-        def c_elsewhere(lg, pr):
-            pr["files"] = [os.path.join(root, "elsewhere", "mapped_sys.gro")]
-
-        want = {c_scale: "scale_forwarded_default_half", c_path: "output_requested_path_or_mapped_beside_input",
-                c_cwd: "output_requested_path_or_mapped_beside_input", c_excl: "discovered_species_exactly_nonexplicit_nonexcluded",
-                c_readd: "discovered_species_exactly_nonexplicit_nonexcluded",
-                c_order: "explicit_start_topologies_first_in_given_order", c_seq: "sequence_from_files_align_maps_extrapolate",
-                c_noalign: "sequence_from_files_align_maps_extrapolate",
-                c_end: "end_molecules_attached_by_name_before_alignment", c_end2: "end_molecules_attached_by_name_before_alignment",
-                c_natoms: "output_requested_path_or_mapped_beside_input", c_elsewhere: "output_requested_path_or_mapped_beside_input"}
+        out_cl, sp_cl = "output_requested_path_or_mapped_beside_input", "mapped_species_explicit_plus_discovered_nonexcluded_none_twice"
+        want = {c_scale: "given_scale_forwarded", c_path: out_cl, c_cwd: out_cl, c_two: out_cl,
+                c_excl: sp_cl, c_readd: sp_cl, c_drop: sp_cl, c_endx: sp_cl, c_natoms: sp_cl,
+                c_order: "info.call_shape", c_seq: "info.call_shape",
+                c_end: "end_molecules_attached_by_name_before_alignment", c_end2: "end_molecules_attached_by_name_before_alignment"}
         missed = [f.__name__ for f, cl in want.items() if cl not in corrupt(f)]
         caught = base_ok and not missed
         out = [ob(f"{PROP}/main/guard.must-fail", "refuted" if caught else "discharged", expect="refuted",
@@ -1092,7 +1141,7 @@ def task_main_guards(seed):
         wrong = dict(exp, scale=0.31, out_abs=os.path.join(root, "mapped_sys.gro"))
         produced = {"files": clean_outputs_list(root), "natoms": exp["out_natoms"]}
         w = main_post(log, None, wrong, produced)
-        caught = "scale_forwarded_default_half" in w and "output_requested_path_or_mapped_beside_input" in w
+        caught = "given_scale_forwarded" in w and "output_requested_path_or_mapped_beside_input" in w
         out.append(ob(f"{PROP}/main/guard.must-fail-on-real-run", "refuted" if caught else "discharged", expect="refuted", **g))
         return out
     finally:
@@ -1105,7 +1154,8 @@ def task_main_guards(seed):
 def e2e_cases():
     cases = []
     for explicit in (["A"], ["A", "B"], ["B", "A"], ["C", "A"]):
-        for scale, outfile, style in ((None, None, "rel-sub"), (0.3, "abs", "abs")):
+        # the scale is always GIVEN here (the statement does not fix the default)
+        for scale, outfile, style in ((0.7, None, "rel-sub"), (0.3, "abs", "abs")):
             cases.append({"explicit": explicit, "auto": False, "exclude": None, "scale": scale, "outfile": outfile, "style": style})
     return cases
 
@@ -1139,27 +1189,32 @@ def run_e2e(case, root, npseed):
     with open(exp["out_abs"]) as fh:
         cli_text = fh.read()
     clean_outputs(root)
-    # the library workflow, written from the documentation of Manager
+    # the library workflow, written from the documentation of Manager.  The statement does not fix the order in which the
+    # species are handed to the library, so any order of the explicit species that gives the same bytes is accepted.
     work = os.path.join(root, "work")
     lib_out = os.path.join(root, "out", "library.gro")
-    with quiet():
-        np.random.seed(npseed)
-        random.seed(npseed)
-        man = gaddlemaps.Manager.from_files(os.path.join(work, "sys.gro"), *[os.path.join(work, fname(s, "top_CG")) for s in case["explicit"]])
-        man.add_end_molecules(*[Molecule.from_files(os.path.join(work, fname(s, "coor_AA")), os.path.join(work, fname(s, "top_AA")))
-                                for s in case["explicit"]])
-        man.align_molecules()
-        man.calculate_exchange_maps(scale_factor=exp["scale"])
-        man.extrapolate_system(lib_out)
-    with open(lib_out) as fh:
-        lib_text = fh.read()
-    clean_outputs(root)
-    if cli_text != lib_text:
-        a, b = cli_text.splitlines(), lib_text.splitlines()
-        diff = next((i for i, (x, y) in enumerate(zip(a, b)) if x != y), min(len(a), len(b)))
-        return (f"output differs from the library workflow (seed {npseed}, scale {exp['scale']}) at line {diff + 1}: "
-                f"{a[diff] if diff < len(a) else '<eof>'!r} vs {b[diff] if diff < len(b) else '<eof>'!r}"), {}
-    return None, {"bytes": len(cli_text)}
+    first_diff = None
+    for order in itertools.permutations(case["explicit"]):
+        with quiet():
+            np.random.seed(npseed)
+            random.seed(npseed)
+            man = gaddlemaps.Manager.from_files(os.path.join(work, "sys.gro"), *[os.path.join(work, fname(s, "top_CG")) for s in order])
+            man.add_end_molecules(*[Molecule.from_files(os.path.join(work, fname(s, "coor_AA")), os.path.join(work, fname(s, "top_AA")))
+                                    for s in order])
+            man.align_molecules()
+            man.calculate_exchange_maps(scale_factor=exp["scale"])
+            man.extrapolate_system(lib_out)
+        with open(lib_out) as fh:
+            lib_text = fh.read()
+        clean_outputs(root)
+        if cli_text == lib_text:
+            return None, {"bytes": len(cli_text), "library_order": list(order)}
+        if first_diff is None:
+            a, b = cli_text.splitlines(), lib_text.splitlines()
+            diff = next((i for i, (x, y) in enumerate(zip(a, b)) if x != y), min(len(a), len(b)))
+            first_diff = (f"output differs from the library workflow (seed {npseed}, scale {exp['scale']}, every order of the species) "
+                          f"at line {diff + 1}: {a[diff] if diff < len(a) else '<eof>'!r} vs {b[diff] if diff < len(b) else '<eof>'!r}")
+    return first_diff, {}
 
 
 def clean_outputs_list(root):
@@ -1299,16 +1354,17 @@ def replay(prop, cex):
             prepare_main_root(root)
             case = dict(cex["case"])
             bad, log, exp, argv = run_main(case, root)
-            if not bad and case.get("auto"):
+            if not any(not k.startswith("info.") for k in bad) and case.get("auto"):
                 # the scratch directory name differs from the checker's run, so the real sets may iterate differently:
                 # search natively over listings of the candidate files
                 for order in list_orderings(list(layout_files(LAYOUTS[MAIN_LAYOUT])), 80, 3):
                     case = dict(cex["case"], auto_order=list(order))
                     bad, log, exp, argv = run_main(case, root)
-                    if bad:
+                    if any(not k.startswith("info.") for k in bad):
                         break
             cex = dict(cex, case=case)
-            return {"reproduced": bool(bad), "violated": {k: v.replace(root, "<tmp>") for k, v in bad.items()},
+            hard = {k: v for k, v in bad.items() if not k.startswith("info.")}
+            return {"reproduced": bool(hard), "violated": {k: v.replace(root, "<tmp>") for k, v in bad.items()},
                     "observed": [{k: v for k, v in e.items() if k != "ends"} for e in log],
                     "expected": {k: v for k, v in exp.items() if k != "ends"}, "inputs": cex,
                     "note": "real main()/auto_map/sort_molecules run in-process on regenerated files; gaddlemaps.Manager is observed through a "
@@ -1344,6 +1400,7 @@ def _replay_sort(cex):
                 bad, res, _ = run_sort(c, "")
                 tried += 1
                 results.setdefault(json.dumps(res), list(order))
+                bad = {k: v for k, v in bad.items() if not k.startswith("info.")}
                 if bad:
                     return {"reproduced": True, "violated": bad, "observed": res, "all_files": list(order),
                             "how": f"real sort_molecules, real sets, PYTHONHASHSEED={os.environ.get('PYTHONHASHSEED')}, cwd=directory",
@@ -1358,6 +1415,7 @@ def _replay_sort(cex):
             bad, res = run_hashseed(c, folder, hs)
             tried += 1
             results.setdefault(json.dumps(res), f"PYTHONHASHSEED={hs}")
+            bad = {k: v for k, v in bad.items() if not k.startswith("info.")}
             if bad:
                 return {"reproduced": True, "violated": bad, "observed": res, "all_files": list(base),
                         "how": f"real sort_molecules in a fresh interpreter, PYTHONHASHSEED={hs}", "inputs": cex}
